@@ -211,7 +211,7 @@ pub fn oracle(f: u32, a: &Args, out: &Args) -> Option<(&'static str, String)> {
         403 => {
             if out[0][0] == 1 {
                 let q = out[0][1];
-                if q > (1 << 60) - 1 { return Some(("C11", format!("quarter stream id {} out of range", q))); }
+                if q > (1 << 60) - 1 { return Some(("C11+C17", format!("quarter stream id {} out of range", q))); }
                 // C03: the payload is exactly the suffix after the quarter stream id as encoded on the
                 // wire (whatever varint width the peer chose), computed here independently
                 let want = 1usize << (a[0][0] >> 6);
